@@ -987,6 +987,11 @@ pub fn regime_tags(spec: &DistSpec) -> Vec<String> {
             if spec.scalar == Scalar::F32 && p[0] <= 1.85 {
                 t.push("zeta32:s<=1.85".into());
             }
+            // f64: the same beyond 2^53 (precision of t - 1 already gone from ~2^46); that
+            // mass is >= 1e-6 up to s ~ 1.45
+            if spec.scalar == Scalar::F64 && p[0] <= 1.45 {
+                t.push("zeta64:s<=1.45".into());
+            }
         }
         Family::Frechet if p.len() == 3 => {
             let inv = 1.0 / p[2];
